@@ -184,8 +184,8 @@ pub fn check_outcome(set: &[(usize, J)], out: &Outcome) -> Result<bool, Verdict>
         }
     }
     let any_conflict = r.all.values().any(|(_, d)| d.iter().any(|e| matches!(e, TE::Conflict { .. })));
-    let closure = ref_closure(set);
     if !has_packed(set) {
+        let closure = ref_closure(set);
         // soundness: nothing is equated that the evidence does not equate
         for i in 0..N {
             for j in 0..N {
@@ -244,6 +244,51 @@ fn for_each_set(first: usize, max: usize, f: &mut dyn FnMut(&[(usize, J)])) {
     rec(&alpha, first + 1, &mut cur, max, f);
 }
 
+/// Rings of classes whose evidence moves on by one class per round: member i is `packed([member i+1 at bits 0..160])`,
+/// the last member points back at the first, and one member is also an address. A ring of n classes has period n, several
+/// rings together have the least common multiple of their lengths, which may exceed the number of variables.
+/// Returns (number of variables, judgement set, description).
+pub fn ring_sets() -> Vec<(usize, Vec<(usize, J)>, String)> {
+    let mut shapes: Vec<Vec<usize>> = Vec::new();
+    for a in 1..=5usize {
+        shapes.push(vec![a]);
+        for b in a..=5 {
+            shapes.push(vec![a, b]);
+            for c in b..=5 {
+                if a + b + c <= 12 {
+                    shapes.push(vec![a, b, c]);
+                }
+            }
+        }
+    }
+    let mut out = Vec::new();
+    for shape in shapes {
+        for extra in [0usize, 1, 4, 30] {
+            for seed_kind in 0..2 {
+                let n: usize = shape.iter().sum::<usize>() + extra;
+                let mut set: Vec<(usize, J)> = Vec::new();
+                let mut base = 0;
+                for len in &shape {
+                    for i in 0..*len {
+                        set.push((base + i, J::Packed(vec![(base + (i + 1) % len, 0, 160)])));
+                    }
+                    // the evidence that travels round the ring
+                    set.push((base, if seed_kind == 0 { J::Word(Some(160), 5) } else { J::Word(Some(160), 0) }));
+                    base += len;
+                }
+                for e in 0..extra {
+                    // unrelated variables, some of them with evidence of their own
+                    if e % 2 == 0 {
+                        set.push((base + e, J::Word(Some(8), 2)));
+                    }
+                }
+                out.push((n, set, format!("rings {shape:?} + {extra} unrelated variables, seed {seed_kind}")));
+            }
+        }
+    }
+    out
+}
+
 pub struct C14;
 
 impl Check for C14 {
@@ -254,12 +299,26 @@ impl Check for C14 {
         "model_checking"
     }
     fn chunks(&self, _tier: Tier) -> usize {
-        alphabet().len()
+        alphabet().len() + 1
     }
     fn stall_secs(&self, _tier: Tier) -> u64 {
         900
     }
     fn run_chunk(&self, tier: Tier, chunk: usize, ctx: &mut Ctx) {
+        if chunk == alphabet().len() {
+            for (n, set, desc) in ring_sets() {
+                ctx.case(|| json!({"judgements": set_json(&set), "plan": [], "n": n}));
+                ctx.count("judgement_sets", 1);
+                ctx.count("ring_sets", 1);
+                ctx.count("unifications", 1);
+                ctx.distinct("nontrivial", crate::util::h64(&format!("{set:?}")));
+                let (out, _) = run(n, &set, &Vec::new());
+                if let Err(v) = check_outcome(&set, &out) {
+                    ctx.violation(v.key, format!("{} [{desc}: {}]", v.what, show_set(&set)), json!({"judgements": set_json(&set), "plan": [], "n": n}));
+                }
+            }
+            return;
+        }
         let Chunk::Sets(first) = Chunk::Sets(chunk);
         for_each_set(first, max_size(tier), &mut |set| {
             ctx.case(|| json!({"judgements": set_json(set), "plan": []}));
@@ -314,7 +373,9 @@ impl Check for C14 {
                  budget, under the canonical order and under every single deviation at the order points, and compared with a \
                  reference congruence closure: termination, no panic, exactly one equality-free expression for every variable \
                  (incl. those allocated during merging), declared equalities honoured, no spurious equality, components of meeting \
-                 constructors unified when no class is conflicted. states = judgement sets; transitions = unifications executed",
+                 constructors unified when no class is conflicted. Plus the ring family: 1 to 3 rings of 1..5 classes each (member i = packed([member i+1]), one member \
+                 also an address or a 160-bit word) next to 0, 1, 4 or 30 unrelated variables: cyclic evidence whose period is the least common multiple of the ring lengths (up to 60) must \
+                 still end with one expression per variable. states = judgement sets; transitions = unifications executed",
                 max_size(tier)
             ),
             true,
@@ -334,7 +395,8 @@ impl Check for C14 {
         let set = set_from_json(&c["judgements"]);
         let plan = plan_from_json(&c["plan"]);
         println!("judgements: {}\nplan: {}", show_set(&set), plan_json(&plan));
-        let (out, _) = run(N, &set, &plan);
+        let n = c["n"].as_u64().map(|x| x as usize).unwrap_or(N);
+        let (out, _) = run(n, &set, &plan);
         match &out {
             Outcome::Done(r) => {
                 for (i, t) in r.types.iter().enumerate() {
